@@ -108,7 +108,7 @@ def main(tier, seed):
     drv = driver("drv_c14")
     wdir = os.path.join(bdir, "verif-work", "c14-%d" % os.getpid())
     os.makedirs(wdir, exist_ok=True)
-    n = 60 if tier == "quick" else 8000
+    n = 300 if tier == "quick" else 8000
     evals = 0
     nontrivial = 0
     disagreements = 0
